@@ -36,7 +36,8 @@ structure Defects where
       or without group is not loaded at start-up (authorisation_service.rs:1019,1025) -/
   reloadDropsIncompleteRoom : Bool
   /-- #33: `prepare_new_auth` accepts the users of a group that is new to a known room only from
-      user-admins of that group — not from room admins (room_node.rs:909-926) -/
+      user-admins of that group — not from room admins (room_node.rs:909-926). (Its user-admin entries must be
+      signed by a room admin since the fix 77018f3.) -/
   newGroupUsersNeedUserAdmin : Bool
   /-- NOT a defect — an environment parameter: the order of the uids relative to creation order. Uids are
       random; SQLite returns the rows of one list (and the groups of a room) in uid order. `false`: uid
@@ -451,9 +452,11 @@ def prepareNewAuth (df : Defects) (room : Room) (g : GroupRow) : Except MErr Uni
   | .ok auth =>
     let usersOk := g.users.all fun u =>
       auth.canAdminUsers u.author u.date || (!df.newGroupUsersNeedUserAdmin && room.isAdmin u.author u.date)
-    let uasOk := df.newGroupUsersNeedUserAdmin || g.userAdmins.all fun u => room.isAdmin u.author u.date
-    if !usersOk || !uasOk then .error .invalidNode
+    -- the user-admin entries of the new group must be signed by an admin (room_node.rs:940-949)
+    let uasOk := g.userAdmins.all fun u => room.isAdmin u.author u.date
+    if !usersOk then .error .invalidNode
     else if !g.rights.all (fun x => room.isAdmin x.author x.date) then .error .invalidNode
+    else if !uasOk then .error .invalidNode
     else .ok ()
 
 /-- the loop over the groups the importer already holds -/
@@ -486,8 +489,16 @@ def checkNewGroups (df : Defects) (room : Room) (old : List GroupRow) : List Gro
       | .error e => .error e
       | .ok () => checkNewGroups df room old t true
 
-/-- `prepare_room_with_history`: returns `need_update` and the merged candidate -/
-def prepareWithHistory (df : Defects) (room : Room) (old cand : RoomRow) : Except MErr (Bool × RoomRow) :=
+/-- the room row of the candidate (room_node.rs:529-543): identical to the stored one, or newer and signed by
+    a key that is admin at its date in the room the importer holds, or older — then the stored row is kept -/
+def roomRowCheck (room : Room) (old cand : RoomRow) : Except MErr RoomRow :=
+  if cand.mdate = old.mdate ∧ cand.author = old.author then .ok cand
+  else if old.mdate < cand.mdate then
+    if room.isAdmin cand.author cand.mdate then .ok cand else .error .invalidNode
+  else .ok { cand with mdate := old.mdate, author := old.author }
+
+/-- the lists of `prepare_room_with_history`: returns `need_update` and the merged candidate -/
+def prepareLists (df : Defects) (room : Room) (old cand : RoomRow) : Except MErr (Bool × RoomRow) :=
   match mergeUsers old.admins cand.admins with
   | .error e => .error e
   | .ok admins =>
@@ -505,6 +516,12 @@ def prepareWithHistory (df : Defects) (room : Room) (old cand : RoomRow) : Excep
           match liftErr (parseRoom false merged) with
           | .error e => .error e
           | .ok _ => .ok (need, merged)
+
+/-- `prepare_room_with_history`: the room row, then the lists -/
+def prepareWithHistory (df : Defects) (room : Room) (old cand : RoomRow) : Except MErr (Bool × RoomRow) :=
+  match roomRowCheck room old cand with
+  | .error e => .error e
+  | .ok cand' => prepareLists df room old cand'
 
 /-! ### sites -/
 
